@@ -210,3 +210,7 @@ package frame
 //@ field variableLengthCodec.buffer immutable VariableLengthCodec
 //@ field packetCodec.* covered
 //@ field packetCodec.readBuffer immutable PacketCodec
+
+// no mutable package-level state (C12, and every property whose plan touches this package)
+//@ property C12
+//@ globals immutable
